@@ -710,9 +710,21 @@ pub fn check_dominance_cfg(block: &syn::Block, fname: &str, unwrap_recv: &str, c
                 let on_window = scrut == "self.window[0]" || scrut == "self.peek()" || scrut == format!("{}.peek()", w.ck.consumer.0);
                 let mut out = true;
                 let mut any_fallthrough = false;
+                // once an unguarded earlier arm has taken `None`, a later catch-all arm sees Some(_) only
+                let mut none_covered = false;
                 for arm in &m.arms {
                     let pat = sm::tsc(&arm.pat);
-                    let arm_known = if on_window { pat.starts_with("Some(") && !pat.contains("None") } else { known };
+                    let catch_all = pat == "_" || (pat.chars().all(|c| c.is_alphanumeric() || c == '_') && pat.chars().next().map_or(false, |c| c.is_lowercase()));
+                    let arm_known = if on_window { (pat.starts_with("Some(") && !pat.contains("None")) || (catch_all && none_covered) } else { known };
+                    if on_window && arm.guard.is_none() {
+                        let alts: Vec<String> = match &arm.pat {
+                            syn::Pat::Or(o) => o.cases.iter().map(|c| sm::tsc(c)).collect(),
+                            other => vec![sm::tsc(other)],
+                        };
+                        if alts.iter().any(|a| a == "None") {
+                            none_covered = true;
+                        }
+                    }
                     let b = sm::tsc(&arm.body);
                     let last_diverges = match &*arm.body {
                         syn::Expr::Block(bb) => matches!(bb.block.stmts.last(), Some(syn::Stmt::Expr(syn::Expr::Return(_) | syn::Expr::Break(_) | syn::Expr::Continue(_), _))),
@@ -905,9 +917,26 @@ fn discharge_constants(cx: &mut Ctx) {
     if let Ok(lx) = sm::load(&cx.repo, "parser/src/lexer.rs") {
         let mut bad = vec![];
         let mut n = 0;
+        // the forwarding `impl Index<Idx> for CharWindow`: its own index parameter is passed on to the array
+        let mut forwarded: Vec<String> = vec![];
+        for it in &lx.file.items {
+            if let syn::Item::Impl(im) = it {
+                let is_index = im.trait_.as_ref().map_or(false, |(_, p, _)| p.segments.last().map_or(false, |s| s.ident == "Index" || s.ident == "IndexMut"));
+                if is_index && sm::tsc(&im.self_ty).starts_with("CharWindow<") {
+                    for ii in &im.items {
+                        if let syn::ImplItem::Fn(m) = ii {
+                            if let Some(syn::FnArg::Typed(pt)) = m.sig.inputs.iter().nth(1) {
+                                forwarded.push(sm::tsc(&pt.pat));
+                            }
+                        }
+                    }
+                }
+            }
+        }
         struct V<'a> {
             n: &'a mut usize,
             bad: &'a mut Vec<String>,
+            forwarded: &'a [String],
         }
         impl<'a, 'ast> syn::visit::Visit<'ast> for V<'a> {
             fn visit_expr_index(&mut self, i: &'ast syn::ExprIndex) {
@@ -915,7 +944,7 @@ fn discharge_constants(cx: &mut Ctx) {
                 if base.ends_with(".window") {
                     *self.n += 1;
                     let ix = sm::tsc(&i.index);
-                    let ok = matches!(ix.as_str(), "0" | "1" | "2" | "..2" | "..3" | "index");
+                    let ok = matches!(ix.as_str(), "0" | "1" | "2" | "..2" | "..3") || self.forwarded.contains(&ix);
                     if !ok {
                         self.bad.push(format!("{}[{}]", base, ix));
                     }
@@ -924,7 +953,7 @@ fn discharge_constants(cx: &mut Ctx) {
             }
         }
         use syn::visit::Visit;
-        V { n: &mut n, bad: &mut bad }.visit_file(&lx.file);
+        V { n: &mut n, bad: &mut bad, forwarded: &forwarded }.visit_file(&lx.file);
         let win3 = sm::tsc(&lx.file).contains("window:CharWindow<T,3>,");
         if bad.is_empty() && win3 && n >= 40 {
             cx.ok(rule, &format!("D.idx: {} window accesses, all with literal slots 0..=2 / ..2 / ..3 of CharWindow<T, 3>", n));
